@@ -31,14 +31,21 @@ Definition apply_pop (s : store) (o : pop) : store :=
    first (the read transaction's snapshot of the entries), inner listing second; [LInner] is the
    swapped order (inner listing first), kept only to show why the order matters *)
 Inductive listing_st := LOutbox (es : list pentry) | LInner (i : store).
+(* a tx-free GetPart (getPartTxFree + lazyOutboxChunkReadCloser) in progress, under STATEMENT-level
+   isolation (every repository lookup sees the latest committed entries; on SQLite the read
+   transaction's snapshot makes the whole read one step, [SGetFree]): about to look up the last entry
+   ([RPre], with the number of lookups rounds so far), about to ask for entry presence + first chunk
+   ([RLooked]), about to ask for chunk [next] ([RStream]) *)
+Inductive rphase := RPre | RLooked (id : N) (c : N) | RStream (id : N) (c : N) (next : nat).
+Record rstate := { rd_pid : N; rd_tries : nat; rd_phase : rphase }.
 Record pstate := { entries : list pentry; inner_parts : store; now : N; pnext : N;
-                   workers : nat -> wstate; listing : option listing_st }.
+                   workers : nat -> wstate; listing : option listing_st; reading : option rstate }.
 
 Definition wupd (f : nat -> wstate) (w : nat) (v : wstate) : nat -> wstate :=
   fun x => if Nat.eqb x w then v else f x.
 
 Definition pinit : pstate :=
-  {| entries := []; inner_parts := fun _ => None; now := 0; pnext := 1; workers := fun _ => WIdle; listing := None |}.
+  {| entries := []; inner_parts := fun _ => None; now := 0; pnext := 1; workers := fun _ => WIdle; listing := None; reading := None |}.
 
 Inductive pstep :=
 | SCommit (ops : list pop) | SRollback (ops : list pop)
@@ -46,11 +53,15 @@ Inductive pstep :=
 | SHeartbeat (w : nat) | SRelease (w : nat) | SCrash (w : nat) | STick (n : N)
 | SGet (p : N) | SIds
 | SIdsBegin | SIdsEnd                 (* GetPartIds as coded: outbox query, then inner listing *)
-| SIdsInnerFirst | SIdsOutboxSecond.  (* the swapped order *)
+| SIdsInnerFirst | SIdsOutboxSecond   (* the swapped order *)
+| SGetFree (p : N)                    (* GetPart with tx = nil, its own read transaction = one snapshot *)
+| SRBegin (p : N) | SRStep.           (* the same under statement-level isolation, lookup by lookup *)
 
 Inductive pres :=
 | PROk | PRClaimed (id : N) | PRNone | PRDeleted | PRLost
-| PRContent (c : option N) | PRIds (l : list N).
+| PRContent (c : option N) | PRIds (l : list N)
+| PRReadErr                       (* the read fails (mid-read fallback finds no part / too many retries) *)
+| PRMixed.                        (* bytes of two different contents: only if a part id is re-put during the read *)
 
 Section M.
 Variable lease : N.
@@ -74,6 +85,21 @@ Definition get_part (s : pstate) (p : N) : option N :=
   | Some (PDelPart _) => None
   | None => inner_parts s p
   end.
+(* chunks of a content as the harness lays them out: empty, one chunk, or two (> 8 MiB) *)
+Definition nchunks (c : N) : nat := if (c =? 0)%N then 0 else if (900 <=? c)%N then 2 else 1.
+(* byte sizes as the harness lays contents out ("c18-part-<c>|" repeated 1 + c mod 4 times; 9.1 MB for
+   c >= 900, first chunk 8 MiB), needed only for the prefix skip of the mid-read fallback *)
+Definition psize (c : N) : N :=
+  if (c =? 0)%N then 0 else if (900 <=? c)%N then 9100000
+  else ((10 + N.of_nat (length (show_N c))) * (1 + c mod 4))%N.
+Definition emitted (c : N) (next : nat) : N :=
+  match nchunks c, next with
+  | 2, 1 => 8388608
+  | _, _ => psize c
+  end.
+Definition last_entry (es : list pentry) (p : N) : option (N * pop) :=
+  option_map (fun e => (pe_id e, pe_op e)) (find (fun e => (pop_pid (pe_op e) =? p)%N) (rev es)).
+Definition present (es : list pentry) (id : N) : bool := existsb (fun e => (pe_id e =? id)%N) es.
 Definition part_ids (s : pstate) : list N :=
   filter (fun p => match get_part s p with Some _ => true | None => false end) UP.
 (* the overlay GetPartIds computes from an entry set and an inner listing read at different times *)
@@ -96,9 +122,19 @@ Definition owned_by (e : pentry) (w : nat) : bool :=
   match pe_owner e with Some w' => Nat.eqb w w' | None => false end.
 
 Definition step_p (s : pstate) (a : pstep) : pstate * pres :=
-  let upd es i t n ws := {| entries := es; inner_parts := i; now := t; pnext := n; workers := ws; listing := listing s |} in
+  let upd es i t n ws := {| entries := es; inner_parts := i; now := t; pnext := n; workers := ws; listing := listing s;
+                            reading := reading s |} in
   let lst l := {| entries := entries s; inner_parts := inner_parts s; now := now s; pnext := pnext s;
-                  workers := workers s; listing := l |} in
+                  workers := workers s; listing := l; reading := reading s |} in
+  let rdg r := {| entries := entries s; inner_parts := inner_parts s; now := now s; pnext := pnext s;
+                  workers := workers s; listing := listing s; reading := r |} in
+  (* FindLastPartOutboxEntryByPartId of a tx-free read *)
+  let lookup p tries :=
+    match last_entry (entries s) p with
+    | None => (rdg None, PRContent (inner_parts s p))
+    | Some (_, PDelPart _) => (rdg None, PRContent None)
+    | Some (id, PPutPart _ c) => (rdg (Some {| rd_pid := p; rd_tries := tries; rd_phase := RLooked id c |}), PROk)
+    end in
   match a with
   | SCommit ops =>
       let '(es, n) := commit_ops (entries s) (pnext s) ops in
@@ -156,6 +192,39 @@ Definition step_p (s : pstate) (a : pstep) : pstate * pres :=
                         | Some (LInner i) => (lst None, PRIds (overlay_ids (entries s) i))
                         | _ => (s, PRNone)
                         end
+  | SGetFree p => (s, PRContent (get_part s p))
+  | SRBegin p => match reading s with None => lookup p 1 | Some _ => (s, PRNone) end
+  | SRStep =>
+      match reading s with
+      | None => (s, PRNone)
+      | Some r =>
+          let p := rd_pid r in
+          match rd_phase r with
+          | RPre => if Nat.leb 8 (rd_tries r) then (rdg None, PRReadErr) else lookup p (S (rd_tries r))
+          | RLooked id c =>
+              if present (entries s) id then
+                match nchunks c with
+                | O => (rdg None, PRContent (Some c))
+                | _ => (rdg (Some {| rd_pid := p; rd_tries := rd_tries r; rd_phase := RStream id c 1 |}), PROk)
+                end
+              else (rdg (Some {| rd_pid := p; rd_tries := rd_tries r; rd_phase := RPre |}), PROk)
+          | RStream id c next =>
+              if present (entries s) id then
+                if Nat.ltb next (nchunks c)
+                then (rdg (Some {| rd_pid := p; rd_tries := rd_tries r; rd_phase := RStream id c (S next) |}), PROk)
+                else (rdg None, PRContent (Some c))
+              else (* the entry was flushed and deleted mid-read: continue from the inner store *)
+                match inner_parts s p with
+                | None => (rdg None, PRReadErr)
+                | Some c' =>
+                    if (psize c' <? emitted c next)%N then (rdg None, PRReadErr)     (* skipping the emitted prefix fails *)
+                    else if (c' =? c)%N then (rdg None, PRContent (Some c))
+                    else if (psize c' =? emitted c next)%N && (emitted c next =? psize c)%N
+                    then (rdg None, PRContent (Some c))                             (* nothing left to read *)
+                    else (rdg None, PRMixed)
+                end
+          end
+      end
   end.
 
 Fixpoint run_p (s : pstate) (tr : list pstep) : pstate * list pres :=
@@ -204,6 +273,16 @@ Fixpoint quiet_listing (s : pstate) (tr : list pstep) : bool :=
        | _, _ => true
        end) && quiet_listing (fst (step_p s a)) t
   end.
+(* no writer transaction commits while a statement-level tx-free read is between its lookups *)
+Fixpoint quiet_reading (s : pstate) (tr : list pstep) : bool :=
+  match tr with
+  | [] => true
+  | a :: t =>
+      (match a, reading s with
+       | SCommit _, Some _ => false
+       | _, _ => true
+       end) && quiet_reading (fst (step_p s a)) t
+  end.
 Definition step_worker (a : pstep) : list nat :=
   match a with
   | SClaim w | SReplay w | SFinalize w | SHeartbeat w | SRelease w | SCrash w => [w]
@@ -215,7 +294,9 @@ End M.
 (* ---------------------------------------------------------------- line protocol
    <lease> <pids> <step> ...   steps: X<ops> commit, Y<ops> rollback (ops: p+c or p- separated by ','; "_" = none),
    C<w> R<w> F<w> H<w> L<w> K<w> (claim replay finalize heartbeat release crash), T<n>, G<p>, I,
-   B / E (GetPartIds: first read / second read + result), b / e (the same in the swapped order)
+   B / E (GetPartIds: first read / second read + result), b / e (the same in the swapped order),
+   g<p> (GetPart with tx = nil), r<p> / s (tx-free GetPart under statement-level isolation: begin = first
+   lookup, s = the next lookup; the last one answers =c / NF / RERR / MIX)
    output: one token per step, then "#", the inner store as p=c pairs over the pid universe, "Q"<pending> *)
 Definition parse_pop (t : bytes) : option pop :=
   match split_first "+"%byte t with
@@ -244,6 +325,9 @@ Definition parse_pstep (t : bytes) : option pstep :=
       else if bytes_eqb t B"I" then Some SIds
       else if bytes_eqb t B"B" then Some SIdsBegin
       else if bytes_eqb t B"E" then Some SIdsEnd
+      else if bytes_eqb t B"s" then Some SRStep
+      else if beqb c "g"%byte then option_map SGetFree (parse_N r)
+      else if beqb c "r"%byte then option_map SRBegin (parse_N r)
       else if bytes_eqb t B"b" then Some SIdsInnerFirst
       else if bytes_eqb t B"e" then Some SIdsOutboxSecond
       else None
@@ -255,6 +339,8 @@ Definition show_pres (r : pres) : bytes :=
   | PRDeleted => B"d" | PRLost => B"l"
   | PRContent None => B"NF" | PRContent (Some c) => B"=" ++ show_N c
   | PRIds l => B"i" ++ show_ns l
+  | PRReadErr => B"RERR"
+  | PRMixed => B"MIX"
   end.
 Definition untok_ns (t : bytes) : option (list N) :=
   if bytes_eqb t B"_" then Some [] else mapM parse_N (split_on ","%byte t).
@@ -275,11 +361,15 @@ Definition run_steps (toks : list bytes) : bytes :=
       do UP <- untok_ns pt;
       do tr <- mapM parse_pstep steps;
       let '(s, rs) := run_p lease UP pinit tr in
-      unwords (map show_pres rs ++ [B"#"; show_inner UP (inner_parts s); B"Q" ++ show_nat (length (entries s))])
+      (* L0: no read transaction begun by a tx-free GetPart is left open (the harness counts them) *)
+      unwords (map show_pres rs ++ [B"#"; show_inner UP (inner_parts s); B"Q" ++ show_nat (length (entries s)); B"L0"])
   | _ => parse_error
   end.
 Definition run_line (l : bytes) : bytes :=
   match tokens l with
-  | t :: rest => if bytes_eqb t B"ORD" then B"ordered" else run_steps (t :: rest)
+  | t :: rest =>
+      if bytes_eqb t B"ORD" then B"ordered"
+      else if bytes_eqb t B"STO" then B"ok"   (* storage-level download scenarios: harness-only, see harness/c18_sto.go *)
+      else run_steps (t :: rest)
   | [] => parse_error
   end.
